@@ -207,18 +207,28 @@ def run_model(family, lines, timeout=900, extra_args=()):
     return out
 
 
+HANGS = {"count": 0}
+MAX_HANGS = 3
+
+
 def _run_real_chunk(runner, case_lines, timeout_per_batch):
     results = []
     i = 0
     n = len(case_lines)
     while i < n:
         chunk = case_lines[i:]
+        if HANGS["count"] >= MAX_HANGS:
+            # several cases already ran into the wall-clock limit: the rest of this run is not executed (each is reported as such)
+            for l in chunk:
+                results.append({"id": l.split()[1] if len(l.split()) > 1 else "?", "crash": "not-run-after-%d-hangs" % MAX_HANGS})
+            break
         try:
             out, rc, err = run_lines([runner], chunk, timeout=timeout_per_batch)
         except subprocess.TimeoutExpired as e:
             raw = e.stdout or b""
             out = (raw.decode("utf-8", "replace") if isinstance(raw, bytes) else raw).split("\n")
             rc = "timeout"
+            HANGS["count"] += 1
         parsed = []
         for l in out:
             try:
